@@ -104,7 +104,13 @@ pub fn gen_case(t: &mut Tape) -> Case {
     let (mat, hirs) = if t.chance(1, 3) {
         (Mat::X(*t.pick(&XKINDS)), vec![])
     } else {
-        let p = gen::gen_re(t, &no_newline_opts()).render();
+        let mut p = gen::gen_re(t, &no_newline_opts()).render();
+        // a pattern that cannot match the terminator may still match a carriage return: under CRLF the
+        // `\r` of a line's own terminator is not part of the line, whichever strategy runs
+        if t.chance(1, 4) {
+            let piece = *t.pick(&["[^x\\n\\x00]", "[^\\n\\x00]", "\\r", "\\r?", "[\\r\\t]", "[^a-z\\n\\x00]*", "(?:\\r|b)"]);
+            p = if t.chance(1, 4) { format!("{piece}{p}") } else { format!("(?:{p}){piece}") };
+        }
         let mut pat = PatCfg::simple(&p, term);
         pat.case = if t.chance(1, 5) { CaseMode::Insensitive } else { CaseMode::Sensitive };
         // -U style build only makes sense for LF (hiargs sets no terminator)
@@ -384,6 +390,7 @@ pub fn check(case: &Case) -> Verdict {
     info.class_if(input.len() > 65536, "input>64KiB");
     info.class_if(case.cfg.stop_on_nonmatch && exp.stopped_at.is_some(), "stopped_on_nonmatch");
     info.class_if(term == Term::Crlf, "crlf");
+    info.class_if(term == Term::Crlf && case.also_multi_line && matches!(&case.mat, Mat::Re { pat } if pat.patterns.iter().any(|p| p.contains("\\r") || p.contains("[^"))), "crlf_multi_line_pattern_may_match_cr");
     info.class_if(term == Term::Nul, "nul_terminator");
     info.class_if(lines.last().map_or(false, |l| !l.terminated), "unterminated_last_line");
     info.class_if(case.strats.iter().any(|s| matches!(s, Strat::PathMmap)), "file_and_mmap");
@@ -476,7 +483,7 @@ pub fn run(pc: &PropCtx) {
     let cases = pc.tier.pick(60_000, 600_000);
     pc.run_tape("strategies", cases, (256, 6000), gen_case, check);
     if pc.tier == crate::runner::Tier::Thorough {
-        pc.run_fuzz("C02:strategies", 100_000, 16000, &|v| replay(pc, "strategies", v).unwrap_or(Verdict::Reject("unreadable")));
+        pc.run_fuzz("C02:strategies", 30_000, 16000, &|v| replay(pc, "strategies", v).unwrap_or(Verdict::Reject("unreadable")));
     }
     pc.require_class("strategies:reader_refilled>=2", cases as u64 / 4);
 }
